@@ -15,7 +15,7 @@ ASSUMPTIONS = ['LM scores are compared within 1e-8 (float64 LMs)', 'ties of the 
                'the "LM state returned" is compared with the state after the arg-max transcript from the same start state']
 N = {'quick': 1600, 'thorough': 60000}
 CLASSES = ['hash', 'hash', 'hash_init', 'hash_scale0', 'torch', 'hash_eos', 'hash', 'torch_init', 'hash_sequence', 'torch_sequence']
-REQUIRED = ['sequence_calls_checked', 'lm_scores_checked', 'best_checked', 'scale0_checked', 'confidence_checked', 'state_checked', 'beam_compared', 'torch_cases', 'nonunit_scale_best_checked']
+REQUIRED = ['reweighted_bag_checked', 'shifted_bag_checked', 'sequence_calls_checked', 'lm_scores_checked', 'best_checked', 'scale0_checked', 'confidence_checked', 'state_checked', 'beam_compared', 'torch_cases', 'nonunit_scale_best_checked']
 SHARDS = {'quick': 8, 'thorough': 16}
 
 
@@ -131,6 +131,33 @@ def check(case, mon, ctx):
             ok = (np.asarray(h).reshape(-1).tolist() == [hexp])
         if not ok:
             mon.violation('returned-state-is-state-after-result', {'result': best})
+    # history on the returned bag: it was queried above; now it is re-weighted (lm_weight is its public LM scale) and queried again,
+    # and bags with the same hypotheses at very low / very high score levels (long lines) report the same posteriors
+    if not tie and hyps:
+        from pero_ocr.decoding.bag_of_hypotheses import BagOfHypotheses
+        for w2 in (0.0, 0.7, scale):
+            boh.lm_weight = w2
+            t2 = np.array([x.vis_sc + w2 * x.lm_sc for x in hyps])
+            o2 = np.argsort(t2)[::-1]
+            if len(t2) > 1 and t2[o2[0]] - t2[o2[1]] < 1e-9:
+                continue
+            mon.count('reweighted_bag_checked')
+            e_conf = float(np.exp(t2[o2[0]] - np.logaddexp.reduce(t2)))
+            if boh.best_hyp() != hyps[int(o2[0])].transcript:
+                mon.violation('result-maximises-vis-plus-scaled-lm', {'after': 'lm_weight set to %r on a bag that was queried before' % w2, 'best_hyp': boh.best_hyp(), 'argmax': hyps[int(o2[0])].transcript})
+            elif abs(boh.confidence() - e_conf) > 1e-9 or abs(boh.transcript_confidence(boh.best_hyp()) - e_conf) > 1e-9:
+                mon.violation('confidence-is-posterior-of-result', {'after': 'lm_weight set to %r on a bag that was queried before' % w2, 'confidence': boh.confidence(),
+                              'transcript_confidence': boh.transcript_confidence(boh.best_hyp()), 'expected': e_conf})
+        for shift in (-800.0, -3000.0, 800.0):
+            b2 = BagOfHypotheses(lm_weight=scale)
+            for x in hyps:
+                b2.add(x.transcript, x.vis_sc + shift, x.lm_sc)
+            mon.count('shifted_bag_checked')
+            e_conf = float(np.exp(post[order[0]]))
+            c2 = b2.confidence()
+            if not np.isfinite(c2) or abs(c2 - e_conf) > 1e-9 or b2.best_hyp() != best:
+                mon.violation('confidence-is-posterior-of-result', {'note': 'the same hypotheses with every visual score shifted by %g (a long line)' % shift, 'confidence': c2, 'expected': e_conf,
+                              'best_hyp': b2.best_hyp(), 'argmax': best})
     # scale 0 reproduces LM-free decoding
     if scale == 0.0:
         free = D.CTCPrefixLogRawNumpyDecoder(letters + [D.BLANK_SYMBOL], k=k, **kw)(lp.copy())
